@@ -37,6 +37,7 @@ var (
 	srcNRGBA  *image.NRGBA
 	srcYCbCr  *image.YCbCr
 	srcBig    *image.NRGBA
+	canvas    *image.RGBA64
 	srcPal    *image.Paletted
 	srcGray16 *image.Gray16
 	srcCMYK   *image.CMYK
@@ -83,6 +84,7 @@ func setup() {
 	for i := range srcCMYK.Pix {
 		srcCMYK.Pix[i] = byte(i*3 + 1)
 	}
+	canvas = image.NewRGBA64(image.Rect(0, 0, 64*5, 4*9))
 	files = map[string][]byte{}
 	for _, s := range seeds.Built() {
 		switch s.Name {
@@ -149,7 +151,7 @@ func digest(parts ...any) uint64 {
 	return h.Sum64()
 }
 
-func run(op trial.Op) uint64 {
+func run(op trial.Op, g int) uint64 {
 	a := op.Arg
 	s := space(op.Space)
 	switch op.Name {
@@ -247,6 +249,24 @@ func run(op trial.Op) uint64 {
 			s.EncodeImage(d, src, par)
 		}
 		return digest(d.Pix)
+	case "TileTransform":
+		// every goroutine owns one tile (a disjoint sub-image) of ONE shared canvas and transforms into it: an atlas,
+		// tile-parallel processing of a large image
+		tile := image.Rect((g%64)*5, (g/64)*9, (g%64)*5+5, (g/64)*9+9)
+		dst := canvas.SubImage(tile).(*image.RGBA64)
+		src := srcNRGBA.SubImage(image.Rect(2, 3, 7, 12))
+		par := 1 + a%4
+		if a&8 == 0 {
+			s.LineariseImage(dst, src, par)
+		} else {
+			s.EncodeImage(dst, src, par)
+		}
+		var px []byte
+		for y := tile.Min.Y; y < tile.Max.Y; y++ {
+			o := dst.PixOffset(tile.Min.X, y)
+			px = append(px, dst.Pix[o:o+8*tile.Dx()]...)
+		}
+		return digest(px)
 	case "ConvertImage":
 		par := 1 + a%8
 		switch a % 3 {
@@ -343,7 +363,7 @@ func main() {
 	if os.Args[2] == "seq" {
 		for g, ops := range tr.Goroutines {
 			for _, op := range ops {
-				out[g] = append(out[g], run(op))
+				out[g] = append(out[g], run(op, g))
 			}
 		}
 	} else {
@@ -372,9 +392,9 @@ func main() {
 				}
 				res := make([]uint64, 0, len(ops))
 				for _, op := range ops {
-					d := run(op)
+					d := run(op, g)
 					for r := 1; r < tr.Reps; r++ {
-						if d2 := run(op); d2 != d {
+						if d2 := run(op, g); d2 != d {
 							d = d2 ^ 0xBAD // any differing repetition poisons the digest
 							break
 						}
